@@ -288,7 +288,7 @@ fn sentinel_main() {
         ("sys", "exec", "exec_args", |d, _, _| format!("\"touch\", \"{}/sentinel\"", d.display()), "fs"),
         ("sys", "exec", "exec_args_output", |d, _, _| format!("\"touch\", \"{}/sentinel\"", d.display()), "fs"),
     ];
-    let forms = ["module", "alias", "symbol", "wildcard", "no-needs", "repl-history", "repl-history-alias", "user-module-reexport", "file"];
+    let forms = ["module", "alias", "symbol", "wildcard", "no-needs", "repl-history", "repl-history-alias", "user-module-reexport", "file", "callback", "callback-stored"];
     for m in 0..8u32 {
         let (fs, net, exec) = (m & 1 != 0, m & 2 != 0, m & 4 != 0);
         let sp = spellings(fs, net, exec);
@@ -311,8 +311,13 @@ fn sentinel_main() {
                 let r: Result<Result<Value, AelysError>, String> = guarded(std::panic::AssertUnwindSafe(|| -> Result<Value, AelysError> {
                     let o = hxlib::runner::opt_level((idx % 3) as u32);
                     match *form {
-                        "module" | "alias" | "symbol" | "wildcard" | "no-needs" => {
+                        "module" | "alias" | "symbol" | "wildcard" | "no-needs" | "callback" | "callback-stored" => {
+                            let nargs = args.matches(", ").count() + 1;
+                            let params: Vec<String> = (0..nargs).map(|k| format!("a{}", k)).collect();
                             let src = match *form {
+                                // the native travels as a value and is called by user code that never names the module
+                                "callback" => format!("needs std.{m}\nfn apply(f, {ps}) {{ return f({ps}) }}\napply({m}.{f}, {a})", m = module, f = func, ps = params.join(", "), a = args),
+                                "callback-stored" => format!("needs std.{m}\nlet held = {m}.{f}\nfn later({ps}) {{ return held({ps}) }}\nlater({a})", m = module, f = func, ps = params.join(", "), a = args),
                                 "module" => format!("needs std.{}\n{}", module, call_q),
                                 "alias" => format!("needs std.{} as zq\nzq.{}({})", module, func, args),
                                 "symbol" => format!("needs {} from std.{}\n{}({})", func, module, func, args),
@@ -360,25 +365,28 @@ fn sentinel_main() {
             }
         }
     }
-    // a capability taken away after the module was registered (VM::set_capabilities)
-    for (module, func) in [("fs", "write_text"), ("net", "listen"), ("sys", "exec")] {
+    // a capability taken away after the module was registered (VM::set_capabilities): EVERY gated native
+    for (module, _cap, func, argf, _effect) in ops.iter() {
         idx += 1;
         let case = Case::fresh(&root, idx);
         let cfg = config_of(&["--ae-trusted=true".to_string()]).unwrap();
         let mut vm = aelys_driver::new_vm_with_config(cfg, Vec::new()).unwrap();
         let _ = aelys_driver::run_with_vm_and_opt(&mut vm, &format!("needs std.{}", module), "<caps>", hxlib::runner::opt_level(0));
+        // a handle obtained while the capability was there must not keep working either: hold the native itself
+        let _ = aelys_driver::run_with_vm_and_opt(&mut vm, &format!("let held = {}.{}", module, func), "<caps>", hxlib::runner::opt_level(0));
         vm.set_capabilities(VMCapabilities::default());
-        let call = match module {
-            "fs" => format!("fs.write_text(\"{}/new.txt\", \"x\")", case.dir.display()),
-            "net" => format!("net.listen(\"127.0.0.1\", {})", 41000 + (std::process::id() % 20000) as u16),
-            _ => format!("sys.exec(\"touch {}/sentinel\")", case.dir.display()),
-        };
+        let port = 41000 + ((std::process::id() as usize * 3 + idx) % 20000) as u16;
+        let args = argf(&case.dir, port, lport);
+        let call = if idx % 2 == 0 { format!("{}.{}({})", module, func, args) } else { format!("held({})", args) };
         let before = snapshot(&case.dir);
+        while listener.accept().is_ok() {}
         verif::sink_install();
         let r = guarded(std::panic::AssertUnwindSafe(|| aelys_driver::run_with_vm_and_opt(&mut vm, &call, "<caps>", hxlib::runner::opt_level(0))));
         let _ = verif::sink_take();
         let (class, detail) = outcome(r);
-        let eff = diff(&before, &snapshot(&case.dir));
+        let mut eff = diff(&before, &snapshot(&case.dir));
+        std::thread::sleep(std::time::Duration::from_millis(10));
+        if listener.accept().is_ok() { eff.push("connected:loopback".to_string()); }
         println!("L\t{}\t{}\t{}\t{}\t{}", module, func, class, if eff.is_empty() { "-".to_string() } else { eff.join(",") }, esc(&detail.chars().take(200).collect::<String>()));
         let _ = std::fs::remove_dir_all(&case.dir);
     }
